@@ -768,26 +768,94 @@ def Collect(s0: str, s1: str, s2: str, template: str) -> tuple[ty.Any, ty.Any, t
     return p.o0, p.o1, p.o2, p.src
 
 
-def _outputs_class(k: int):
-    names = [f"o{i}" for i in range(k)]
+# declared types of workflow output fields (C33): what `copyfile_workflow` does must not depend on them
+DECL_LABELS = ["Any", "untyped", "object", "list", "dict", "tuple", "List[Any]", "dict[str,Any]", "Tuple[Any,...]",
+               "File", "list[File]", "dict[str,File]", "File|None"]  # fmt: skip
 
-    def ctor():
-        return tuple(None for _ in names)
 
-    ctor.__name__ = f"OutK{k}"
-    ctor.__annotations__ = {"return": tuple[tuple(ty.Any for _ in names)] if k > 1 else ty.Any}
-    return _workflow.define(outputs=names)(ctor).Outputs
+def decl_type(label: str):
+    from fileformats.generic import File
+
+    return {
+        "Any": ty.Any, "untyped": ty.Any, "object": object, "list": list, "dict": dict, "tuple": tuple,
+        "List[Any]": ty.List[ty.Any], "dict[str,Any]": dict[str, ty.Any], "Tuple[Any,...]": ty.Tuple[ty.Any, ...],
+        "File": File, "list[File]": list[File], "dict[str,File]": dict[str, File], "File|None": ty.Optional[File],
+    }[label]  # fmt: skip
+
+
+def _define_outputs(decls: tuple, extra: dict | None = None):
+    """`outputs=` argument of workflow.define: a dict name -> declared type; fields labelled "untyped" are given by
+    name only when every field is untyped (the list form), else declared Any."""
+    names = [f"o{i}" for i in range(len(decls))]
+    if all(d == "untyped" for d in decls) and not extra:
+        return names
+    out = {n: decl_type(d) for n, d in zip(names, decls)}
+    out.update(extra or {})
+    return out
 
 
 _OUT_CLASSES: dict = {}
 
 
-def outputs_object(values: list):
-    """A real `workflow.Outputs` instance with fields o0…o(k-1) of type Any."""
-    k = len(values)
-    if k not in _OUT_CLASSES:
-        _OUT_CLASSES[k] = _outputs_class(k)
-    return _OUT_CLASSES[k](**{f"o{i}": v for i, v in enumerate(values)})
+def outputs_object(values: list, decls: list | None = None):
+    """A real `workflow.Outputs` instance with fields o0…o(k-1) whose class DECLARES the given types."""
+    decls = tuple(decls or ["untyped"] * len(values))
+    if decls not in _OUT_CLASSES:
+
+        def ctor():
+            return None
+
+        ctor.__name__ = "Out_" + "_".join(str(DECL_LABELS.index(d)) for d in decls)
+        _OUT_CLASSES[decls] = _workflow.define(outputs=_define_outputs(decls))(ctor).Outputs
+    return _OUT_CLASSES[decls](**{f"o{i}": v for i, v in enumerate(values)})
+
+
+def _collect_ctor(s0: str, s1: str, s2: str, template: str):
+    w0 = _workflow.add(Writer(specs=s0, tag="@0"), name="w0")
+    w1 = _workflow.add(Writer(specs=s1, tag="@1"), name="w1")
+    w2 = _workflow.add(Writer(specs=s2, tag="@2"), name="w2")
+    p = _workflow.add(Pack(f0=w0.files, f1=w1.files, f2=w2.files, template=template), name="p")
+    return p.o0, p.o1, p.o2, p.src
+
+
+_COLLECT_CLASSES: dict = {}
+
+
+def collect_workflow(decls: list | None = None):
+    """The workflow of the public route with `outputs={"o0": <declared type>, …, "src": str}`."""
+    decls = tuple(decls or ["untyped"] * 3)
+    if all(d == "untyped" for d in decls):
+        return Collect
+    if decls not in _COLLECT_CLASSES:
+        _COLLECT_CLASSES[decls] = _workflow.define(outputs=_define_outputs(decls, {"src": str}))(_collect_ctor)
+    return _COLLECT_CLASSES[decls]
+
+
+def gen_declared_value(rng, decl: str, n_objs: int, file_objs: list, depth: int, allow_file_keys: bool, int_keys: bool = True):
+    """A nested value that conforms to the declared type `decl` (so that pydra's own type coercion leaves it alone)."""
+    sub = lambda d: gen_tree(rng, n_objs, d, allow_file_keys, [], int_keys)  # noqa: E731
+    n = rng.choice([1, 2, 2, 3, 4])
+    if decl in ("Any", "untyped", "object"):
+        return sub(depth)
+    if decl in ("list", "List[Any]"):
+        return {"l": [sub(max(depth - 1, 0)) for _ in range(n)]}
+    if decl in ("tuple", "Tuple[Any,...]"):
+        return {"t": [sub(max(depth - 1, 0)) for _ in range(n)]}
+    if decl in ("dict", "dict[str,Any]"):
+        keys = ["k", "out.txt", "n", "x y", "z"] + ([1, 2] if decl == "dict" and int_keys else [])
+        return {"d": [[{"a": k}, sub(max(depth - 1, 0))] for k in rng.sample(keys, min(n, len(keys)))]}
+    if not file_objs:  # no File-class object at hand: fall back to a container the declaration cannot describe
+        return None
+    leaf = lambda: {"o": rng.choice(file_objs)}  # noqa: E731
+    if decl == "File":
+        return leaf()
+    if decl == "File|None":
+        return leaf() if rng.random() < 0.8 else {"a": None}
+    if decl == "list[File]":
+        return {"l": [leaf() for _ in range(n)]}
+    if decl == "dict[str,File]":
+        return {"d": [[{"a": k}, leaf()] for k in rng.sample(["k", "out.txt", "n", "x y"], min(n, 4))]}
+    raise ValueError(decl)
 
 
 REPORT_SCRIPT = r"""
